@@ -304,6 +304,33 @@ def branch_count_family(full=False):
     return out
 
 
+def loop_on_break_path_family(nmax):
+    """beyond F: the exit path of a loop begins with a loop of its own (the
+    first event of a break branch is wrapped in a self loop)"""
+    out = []
+
+    def rewrite(seq):
+        """yield variants of seq with exactly one break branch rewritten"""
+        for i, it in enumerate(seq):
+            if it[0] == 'loop':
+                for v in rewrite(it[1]):
+                    yield seq[:i] + (('loop', v),) + seq[i + 1:]
+            elif it[0] in ('and', 'or', 'xor'):
+                for bi, b in enumerate(it[1]):
+                    if it[0] == 'xor' and b and b[-1] == ('break',) \
+                            and b[0][0] == 'ev':
+                        nb = (('loop', (b[0],)),) + b[1:]
+                        yield seq[:i] + ((it[0], it[1][:bi] + (nb,) +
+                                          it[1][bi + 1:]),) + seq[i + 1:]
+                    for v in rewrite(b):
+                        yield seq[:i] + ((it[0], it[1][:bi] + (v,) +
+                                          it[1][bi + 1:]),) + seq[i + 1:]
+    for d in F(nmax):
+        if _nbreaks(d) >= 1:
+            out.extend(rewrite(d))
+    return out
+
+
 def F_plus_extra(nmax):
     """multi-start variants: leading event removed when a fork follows it.
     (a definition of F with n+1 events gives a variant with n events)"""
